@@ -277,6 +277,49 @@ fn check_k(subset: u64, order: usize, header: usize, layout: usize) -> Option<Vi
     if let Some((sig, what)) = check_doc(&doc, kind, model.as_ref(), "keys") {
         return Some(Viol::new(format!("C02/{sig}"), what, case));
     }
+    if header != 0 {
+        // the reader entry point strips the header across read calls: delivered byte by byte, and
+        // split exactly behind the header line, the document must decode to what the slice gives
+        let hdr_len = doc.iter().position(|&b| b == b'\n').map_or(0, |i| i + 1);
+        struct Cut<'a>(&'a [u8], usize, usize); // data, position, chunk size (0 = cut behind the header)
+        impl std::io::Read for Cut<'_> {
+            fn read(&mut self, buf: &mut [u8]) -> std::io::Result<usize> {
+                let rest = &self.0[self.1..];
+                let want = if self.2 == 0 { rest.len() } else { self.2 };
+                let n = rest.len().min(buf.len()).min(want);
+                buf[..n].copy_from_slice(&rest[..n]);
+                self.1 += n;
+                Ok(n)
+            }
+        }
+        let via_slice = guarded(|| decode_slice(&doc).ok().map(|d| obs_decoded(&d)));
+        for (name, chunks) in [("byte-by-byte", vec![1usize]), ("cut-behind-the-header-line", vec![hdr_len, 0])] {
+            let r = guarded(|| {
+                // first read delivers `chunks[0]` bytes, later reads `chunks.last()`
+                struct Two<'a>(Cut<'a>, Vec<usize>, usize);
+                impl std::io::Read for Two<'_> {
+                    fn read(&mut self, buf: &mut [u8]) -> std::io::Result<usize> {
+                        (self.0).2 = self.1[self.2.min(self.1.len() - 1)];
+                        self.2 += 1;
+                        std::io::Read::read(&mut self.0, buf)
+                    }
+                }
+                sourcemap::decode(Two(Cut(&doc, 0, 1), chunks.clone(), 0)).ok().map(|d| obs_decoded(&d))
+            });
+            match (&via_slice, &r) {
+                (Ok(a), Ok(b)) if a == b => {}
+                (_, Err(p)) => return Some(Viol::new(format!("C02/panic/{}", panic_class(p)), format!("decode(reader, {name}) panicked: {p}"), case)),
+                (Ok(a), Ok(b)) => {
+                    return Some(Viol::new(
+                        format!("C02/junk-header/reader-differs/{name}"),
+                        format!("document with a junk header, read {name}: decode(reader) gives {}, decode_slice gives {}\ndocument: {}", b.as_ref().map_or("an error".to_string(), |v| v.to_string()), a.as_ref().map_or("an error".to_string(), |v| v.to_string()), String::from_utf8_lossy(&doc)),
+                        case,
+                    ))
+                }
+                _ => {}
+            }
+        }
+    }
     if kind == Kind::Index {
         // the index's own observations
         let r = guarded(|| {
